@@ -42,6 +42,64 @@ def compile_and_classify(prog, cfg):
         return "crash", e, {}, b
 
 
+def teal_read_before_write(text):
+    """explicit-state search over the EMITTED program: states (pc, set of slots stored so far in this routine
+    activation), every routine explored from its entry (callsub steps over the call).  Only slots that a single
+    routine uses are considered (the property's scope).  -> (message or None, states visited)"""
+    from ..avm import asm
+    p = asm.assemble(text)
+    ins = p.instrs
+    entries = {0: "main"}
+    for i_ in ins:
+        if i_.op == "callsub" and i_.args and i_.args[0] in p.labels:
+            entries[p.labels[i_.args[0]]] = i_.args[0]
+    # which routine does each pc belong to (first-reached wins; routines do not share code in PyTeal output)
+    def succ(pc):
+        i_ = ins[pc]
+        if i_.op in ("return", "err", "retsub"):
+            return []
+        if i_.op == "b":
+            return [p.labels[i_.args[0]]]
+        if i_.op in ("bz", "bnz"):
+            return [pc + 1, p.labels[i_.args[0]]]
+        if i_.op in ("switch", "match"):
+            return [pc + 1] + [p.labels[x] for x in i_.args[0]] if i_.args and isinstance(i_.args[0], list) else [pc + 1]
+        return [pc + 1]
+    users = {}
+    reach = {}
+    for e in entries:
+        seen, todo = set(), [e]
+        while todo:
+            pc = todo.pop()
+            if pc in seen or pc >= len(ins):
+                continue
+            seen.add(pc)
+            if ins[pc].op in ("load", "store") and ins[pc].args:
+                users.setdefault(ins[pc].args[0], set()).add(e)
+            todo += succ(pc)
+        reach[e] = seen
+    local = set(s for s, rs in users.items() if len(rs) == 1)
+    visited = 0
+    for e in entries:
+        seen, todo = set(), [(e, frozenset())]
+        while todo:
+            st = todo.pop()
+            if st in seen or st[0] >= len(ins):
+                continue
+            seen.add(st)
+            visited += 1
+            pc, stored = st
+            i_ = ins[pc]
+            if i_.op == "load" and i_.args and i_.args[0] in local and i_.args[0] not in stored:
+                return ("emitted program reaches `load %s` (line %d of routine %s) on a path without a store to that slot"
+                        % (i_.args[0], i_.line, entries[e])), visited
+            if i_.op == "store" and i_.args and i_.args[0] in local:
+                stored = stored | {i_.args[0]}
+            for n in succ(pc):
+                todo.append((n, stored))
+    return None, visited
+
+
 def check(prog, body, cfg, out, size, placement, varkind):
     cnt, oc = out["counters"], out["outcomes"]
     bad, nstates = gen_init.uninit_vars(body)
@@ -56,6 +114,16 @@ def check(prog, body, cfg, out, size, placement, varkind):
     key = ("uninit" if bad else "init") + ":" + st
     oc[key] = oc.get(key, 0) + 1
     if not bad:
+        if st == "ok":
+            # "hence in any program that compiles, such a variable is never read before its first write":
+            # search the emitted program itself
+            why, nst = teal_read_before_write(r)
+            cnt["teal_states"] = cnt.get("teal_states", 0) + nst
+            if why:
+                out["violations"].append({
+                    "driver": placement + "/" + varkind, "size": size, "title": "%s: %s (%r)" % (placement, why, cfg),
+                    "recipe": prog, "body": body, "cfg": cfg.to_json(), "placement": placement, "varkind": varkind,
+                    "teal": r, "features": {"why": "emitted read before write", "status": st}})
         return
     why = None
     if st == "ok":
@@ -118,6 +186,14 @@ def run(tier):
     for k, b in fg.programs(n + 1):
         if k == n + 1 and gen_init.uses_var(b) and b not in seen:
             items.append((k, b))
+    # the same core programs reached from a NON-initial control-flow state: after a loop whose body ends in a
+    # conditional with two coinciding targets (If(c).Then(Continue()) / an empty If as the last statement)
+    prefixes = [(("while", "cin", (("if", "cin", (("cont",),)),)),), (("while", "cin", (("if", "cin", ()),)),)]
+    core = [(k, b) for k, b in fg.programs(n + 1) if gen_init.uses_var(b)]
+    for pre in prefixes:
+        for k, b in core:
+            items.append((k + 3, pre + b))
+    rep.bounds["loop_prefixes"] = len(prefixes)
     rep.bounds["core_alphabet_max_nodes"] = n + 1
     rep.bounds["max_nodes"] = n
     rep.bounds["recipes"] = len(items)
